@@ -106,6 +106,11 @@ pub fn run(ctx: &mut Ctx) {
     let n = ctx.tier.pick(120_000, 1_000_000);
     let strat = || adversarial_events(40).prop_map(|e| events_to_input(&e));
     ctx.run_proptest("random-histories", &STD, n, strat(), check);
+    // groups of 10..40 fragments with probe lines aimed at the position reached (see the generator)
+    let long = || crate::gen::sentence::long_group_events().prop_map(|e| events_to_input(&e));
+    for cfg in configs() {
+        ctx.run_proptest("long-groups-with-probes", cfg, n / 6, long(), check);
+    }
     ctx.run_proptest("capacity-groups", &crate::adapter::NONE, n / 4, crate::props::c18::capacity_histories(), check);
     if ctx.tier == Tier::Thorough {
         for cfg in configs().into_iter().skip(1) {
